@@ -4,7 +4,7 @@ from props import wkt_common as w
 
 PIPES = {"wkt": w.pipe}
 
-QUICK = ["WKT_full9.cfg", "WKT_rings.cfg", "WKT_coll.cfg", "WKT_multi.cfg", "WKT_lines.cfg", "WKT_nest.cfg"]
+QUICK = ["WKT_absrej5.cfg", "WKT_full9.cfg", "WKT_rings.cfg", "WKT_coll.cfg", "WKT_multi.cfg", "WKT_lines.cfg", "WKT_nest.cfg"]
 
 
 THOROUGH = ["WKT_full10.cfg", "WKT_rings16.cfg", "WKT_coll13.cfg", "WKT_multi16.cfg", "WKT_lines.cfg", "WKT_nest15.cfg",
@@ -14,6 +14,12 @@ THOROUGH = ["WKT_full10.cfg", "WKT_rings16.cfg", "WKT_coll13.cfg", "WKT_multi16.
 def run(ctx, verdict):
     cases = []
     for cfg in (QUICK if ctx.quick else THOROUGH):
-        cases += w.enumerate_strings(ctx, cfg)
+        cs = w.enumerate_strings(ctx, cfg)
+        if "absrej" in cfg:
+            # non-grammatical token sequences have no unambiguous text (adjacent numbers / keywords glue):
+            # only totality and the verdict are compared for them
+            for c in cs:
+                c["weak"] = True
+        cases += cs
     vlib.note_cases(ctx, cases, nontrivial=lambda c: len(c["toks"]) > 3)
     w.pipe(ctx, verdict, cases)
